@@ -84,3 +84,11 @@ Theorem C17_driver_holds_at_most_jobs :
   forall cf sched st tr, drun cf (dst0 cf) sched = (st, tr) -> (n_active (d_tasks st) <= c_jobs cf)%nat.
 Proof. exact driver_holds_at_most_jobs. Qed.
 Print Assumptions C17_driver_holds_at_most_jobs.
+
+Theorem C17_driver_files_in_flight_bounded :
+  forall cf sched st tr, wf_cfg cf -> drun cf (dst0 cf) sched = (st, tr) ->
+    exists p, prun (mkParams (c_jobs cf) (kept_of cf st)) pst0 tr = Some p /\
+              (length (inflight p) <= c_jobs cf)%nat /\
+              (forall db, has_open db (sessions p) = true -> In db (inflight p)).
+Proof. exact driver_files_in_flight_bounded. Qed.
+Print Assumptions C17_driver_files_in_flight_bounded.
